@@ -64,7 +64,7 @@ def run(chk):
     chk.trusted = cc.TRUSTED_COMPILER
     chk.assumptions = ["operands of generated forms never assign a statement-lifted value with setv/setx, so Result.rename "
                        "does not fire (C01 covers that)"]
-    chk.prove("Props/C02.v", ["Props/C02.vo", "Compiler/Run.vo"], [compiler_tables.translate])
+    chk.prove("Props/C02.v", ["Props/C02.vo", "Compiler/Run.vo", "Compiler/Valueless.vo"], [compiler_tables.translate])
     rng = chk.rng
     thorough = chk.tier == "thorough"
     g = cc.Gen(rng, [])
